@@ -141,14 +141,25 @@ def ekf_driver(p, ns="gen"):
             L.append(f"      vsym::out(\"innov_{key}_{r}\", (*inn)({i}, 0));")
         L.append(f"    }} else {{ vsym::note(\"innovation_missing_{key}\"); }}")
         L.append("  }")
-    # --- every sensor updated once on the same filter object (each from the same prior), innovations read back afterwards
+    # --- every sensor updated once on the same filter object (each from the same prior), then the first sensor once
+    #     more with a second reading; innovations read back afterwards; state/covariance of the last update reported
     L.append("  if (sc == \"seq\") {")
-    L.append("    G::ExtendedKalmanFilter ekf;")
-    for key in p.s_sensors():
+    L.append("    G::ExtendedKalmanFilter ekf; G::StateAndVariance last = sv;")
+    keys = p.s_sensors()
+    for key in keys:
         T = tname(key)
         ua = _call_args(p, ["sv"], ctl=False) + f", rd_{key}"
-        L.append(f"    G::{T} rd_{key} = mkReading_{key}(); ekf.sensor_model({ua});")
-    for key in p.s_sensors():
+        L.append(f"    G::{T} rd_{key} = mkReading_{key}(); last = ekf.sensor_model({ua});")
+    if keys:
+        key = keys[0]
+        T = tname(key)
+        L.append(f"    G::{T}Options ob;")
+        for r in p.sensors[key]:
+            L.append(f"    ob.{r} = IN(\"zb_{key}_{r}\");")
+        ua = _call_args(p, ["sv"], ctl=False) + ", rdb"
+        L.append(f"    G::{T} rdb(ob); last = ekf.sensor_model({ua});")
+    L.append("    outState(\"x_\", last.state); outCov(\"P\", last.covariance);")
+    for key in keys:
         T = tname(key)
         rs = p.s_readings(key)
         L.append(f"    {{ auto inn = ekf.innovations<G::{T}>(); if (inn.has_value()) {{")
